@@ -3,6 +3,8 @@ package sim
 import (
 	"fmt"
 	"strings"
+
+	"github.com/textwire/textwire/v2/simrt"
 )
 
 // C16 — a render depends only on its arguments, not on earlier calls. The
@@ -18,7 +20,7 @@ func (c16) Runs(tier string) int {
 	if tier == "thorough" {
 		return 60000
 	}
-	return 700
+	return 360
 }
 func (c16) Rule() string {
 	return "per run a template tree (layout, components, pages that succeed / fail at run time, optional custom error page, debug on/off, custom functions) is generated and loaded on the simulated disk; an operation alphabet {String, Response (healthy / failing writer), EvaluateString, EvaluateFile (present / missing / EIO)} x {succeeding, failing, unknown name} is derived from it. Every fourth run sweeps ALL ordered pairs of the alphabet (exhaustive for length 2 on that tree), the others run seeded random histories of length 3..12. Oracle: each operation's observation equals the observation of the same operation issued first after a fresh reset + identical setup; caller data deep-equal to a private copy; after the history every page re-renders to its baseline. evaluations = operations executed inside histories. distinct_nontrivial = distinct histories (content hash) of length >= 2 that contain a failing operation or a string/file evaluation before a template render."
@@ -66,6 +68,40 @@ func treeAlphabet(r *Rng, t *Tree, extra []File) []Op {
 	for _, f := range extra {
 		ops = append(ops, Op{Kind: "evalfile", Name: f.Path, Data: nil})
 	}
+	// the same pages with objects in their other native representation (map <-> struct)
+	alt := AltData(d)
+	for i, p := range t.Pages {
+		if i < 2 {
+			ops = append(ops, Op{Kind: "string", Name: p, Data: alt})
+		}
+	}
+	// hand-shaped pages: failure inside a component vs outside it; failure in a late loop
+	// iteration; dot access on struct vs map; distinct struct types with the same name
+	mk := func(k []string, v ...Val) *Val { return &Val{T: "map", K: k, V: v} }
+	cd := []string{"den", "top"}
+	ops = append(ops,
+		Op{Kind: "string", Name: "comppage", Data: mk(cd, VInt(0), VInt(1))},
+		Op{Kind: "string", Name: "comppage", Data: mk(cd, VInt(1), VInt(0))},
+		Op{Kind: "string", Name: "comppage", Data: mk(cd, VInt(1), VInt(1))},
+		Op{Kind: "response", Name: "comppage", Data: mk(cd, VInt(0), VInt(1))},
+		Op{Kind: "response", Name: "comppage", Data: mk(cd, VInt(1), VInt(0))},
+	)
+	ld := []string{"nums", "k", "lim"}
+	ops = append(ops,
+		Op{Kind: "string", Name: "loopy", Data: mk(ld, Val{T: "ints", A: []Val{VInt(1), VInt(2)}}, VInt(5), VInt(2))},
+		Op{Kind: "string", Name: "loopy", Data: mk(ld, Val{T: "ints", A: []Val{VInt(4), VInt(0)}}, VInt(5), VInt(2))},
+		Op{Kind: "string", Name: "loopy", Data: mk(ld, Val{T: "arr", A: []Val{VInt(5)}}, VInt(1), VInt(3))},
+		Op{Kind: "response", Name: "loopy", Data: mk(ld, Val{T: "ints", A: []Val{VInt(4), VInt(0)}}, VInt(5), VInt(2))},
+		Op{Kind: "evalstr", Src: "@each(x in nums){{ 100 / x }},@end", Data: mk([]string{"nums"}, Val{T: "ints", A: []Val{VInt(4), VInt(0)}})},
+		Op{Kind: "evalstr", Src: "@each(x in nums){{ 100 / x }},@end", Data: mk([]string{"nums"}, Val{T: "ints", A: []Val{VInt(1), VInt(2)}})},
+	)
+	ops = append(ops,
+		Op{Kind: "string", Name: "dotpage", Data: mk([]string{"user"}, Val{T: "struct", K: []string{"Name", "Age"}, V: []Val{VStr("Ann"), VInt(30)}})},
+		Op{Kind: "string", Name: "dotpage", Data: mk([]string{"user"}, Val{T: "map", K: []string{"name", "age"}, V: []Val{VStr("Bob"), VInt(41)}})},
+		Op{Kind: "string", Name: "rowpage", Data: mk([]string{"r"}, Val{T: "named", I: 0})},
+		Op{Kind: "string", Name: "rowpage", Data: mk([]string{"r"}, Val{T: "named", I: 1})},
+		Op{Kind: "evalstr", Src: "{{ r.num }}", Data: mk([]string{"r"}, Val{T: "named", I: 2})},
+	)
 	return ops
 }
 
@@ -82,6 +118,13 @@ func genC16Tree(r *Rng) (*Scenario, *Tree, []Op) {
 		late = `@use("layouts/main")` + "\n" + `@insert("content")` + late + "@end"
 	}
 	sc.Files = append(sc.Files, File{Path: t.path("pagefail"), Data: late, Role: "page"})
+	sc.Files = append(sc.Files,
+		File{Path: t.path("components/ratio"), Data: "<i>R{{ 100 / d }}</i>", Role: "component"},
+		File{Path: t.path("comppage"), Data: "<p>TOP{{ 7 / top }}</p>\n@component(\"components/ratio\", {d: den})\n<p>END</p>", Role: "page"},
+		File{Path: t.path("loopy"), Data: "<ul>@each(x in nums)<li>{{ 100 / x }}</li>@end</ul>\n@for(i = 0; i < lim; i++)[{{ 60 / (k - i) }}]@end", Role: "page"},
+		File{Path: t.path("dotpage"), Data: "<p>{{ user.name }}/{{ user.age }}</p>", Role: "page"},
+		File{Path: t.path("rowpage"), Data: "<p>{{ r.num }}:{{ r.title }}</p>", Role: "page"},
+	)
 	bad := File{Path: t.Cwd + "/other/eio.txt", Data: "x", ReadErr: "EIO", Role: "other"}
 	sc.Files = append(sc.Files, bad)
 	sc.Setup = []Op{
@@ -91,6 +134,21 @@ func genC16Tree(r *Rng) (*Scenario, *Tree, []Op) {
 		t.LoadOp(),
 	}
 	return sc, t, treeAlphabet(r, t, []File{bad})
+}
+
+// setupWorldKeep is setupWorld without the reset: the process keeps whatever
+// state earlier operations left behind; only the disk is replaced.
+func setupWorldKeep(sc *Scenario) (*World, bool) {
+	w := &World{FS: BuildFS(sc.Cwd, sc.Files), Rec: &Recorder{}}
+	simrt.SetFS(w.FS)
+	pinSeams()
+	for _, op := range sc.Setup {
+		o := w.RunOp(op, Budget)
+		if o.Kind != "ok" {
+			return w, false
+		}
+	}
+	return w, true
 }
 
 // setupWorld resets, pins the seams, builds the disk and runs the setup ops.
